@@ -2,13 +2,17 @@
   Relic.Model.PS — executable model of /repo/lib/authenticode/powershell.go: `DigestPowershell` (the byte stream fed
   to the hash, `TextSize`, `SigSize`), `PsDigest.MakePatch` and the line scan of `VerifyPowershell` (the locator).
 
-  The model follows the code *after* the two F8 fixes:
+  The model follows the code *after* the two F8 fixes and the F-ps-eol fix:
     F8a  `readLine` reads UTF-16 text by code units (a line ends at the code unit U+000A), so a code unit whose low
          or high byte is 0x0A (U+4E0A, U+010A, U+0A41 …) no longer ends a line or raises "malformed utf16";
     F8b  a marker line that is not preceded by a line long enough to hold the end-of-line it is about to strip is an
          error ("malformed powershell signature") instead of a slice panic.
-  The code as it was before the fixes is kept as `linesOrig16` / `DigestPSOrig`, with the witnesses that refute
-  the properties for it (Props/C01_PS.lean: `ps_orig_refuses_bmp`, `ps_orig_marker_first_panics`).
+    F-ps-eol  the bytes cut off in front of a begin-marker line are compared with the CRLF that ends the marker line itself
+         (`saved[len(saved)-eol:] != first[len(first)-eol:]`); when they differ the script is refused ("malformed
+         powershell signature") instead of losing its last character.
+  The code as it was before the F8 fixes is kept as `linesOrig16` / `DigestPSOrig`, with the witnesses that refute
+  the properties for it (Props/C01_PS.lean: `ps_orig_refuses_bmp`, `ps_orig_marker_first_panics`); the code after F8 and
+  before F-ps-eol is `DigestPSEolOrig` (Props/C03_PSEol.lean: `ps_mixed_eol_loses_text_orig`).
 
   Styles: 1 = "# …" (ps1, psd1, psm1), 2 = "<!-- … -->" (ps1xml, psc1, cdxml), 3 = "/* … */" (mof).
 -/
@@ -144,35 +148,41 @@ structure Digest where
   deriving Repr, DecidableEq
 
 /-- the `for` loop.  `k` = size of the end-of-line stripped before the marker (2 or 4), `pos` = bytes consumed so far,
-    `guard` = fix F8b present. -/
-def digestLoop (guard : Bool) (first : Bytes) (u16 : Bool) (k flen : Nat) :
+    `guard` = fix F8b present, `chk` = fix F-ps-eol present (the `k` bytes to be cut off must be the last `k` bytes of the
+    marker line, i.e. its CRLF). -/
+def digestLoop (guard chk : Bool) (first : Bytes) (u16 : Bool) (k flen : Nat) :
     List Item → (saved hashed : Bytes) → (textSize pos : Nat) → Res (Bytes × Nat × Nat)
   | [], saved, h, ts, _ => .ok (h ++ conv u16 saved, ts + saved.length, 0)
   | .bad :: _, _, _, _, _ => .err "malformed"
   | .line l phys :: rest, saved, h, ts, pos =>
     if l = first then
       if saved.length < k then (if guard then .err "badsig" else .panic "DigestPowershell:saved[:len-eol]") else
+      if chk ∧ saved.drop (saved.length - k) ≠ first.drop (first.length - k) then .err "badsig" else
       let saved' := saved.take (saved.length - k)
       .ok (h ++ conv u16 saved', ts + saved'.length, k + l.length + (flen - (pos + phys)))
-    else digestLoop guard first u16 k flen rest l (h ++ conv u16 saved) (ts + saved.length) (pos + phys)
+    else digestLoop guard chk first u16 k flen rest l (h ++ conv u16 saved) (ts + saved.length) (pos + phys)
 
-def digestWith (guard : Bool) (split16 : Bytes → Bytes → List Item) (f : Bytes) (style : Nat) : Res Digest :=
+def digestWith (guard chk : Bool) (split16 : Bytes → Bytes → List Item) (f : Bytes) (style : Nat) : Res Digest :=
   match styleOf style with
   | none => .err "style"
   | some (st, en) =>
     let u16 := isUtf16 f
     let items := if u16 then split16 [] f else lines8 [] f
-    match digestLoop guard (firstLine st en u16) u16 (if u16 then 4 else 2) f.length items [] [] 0 0 with
+    match digestLoop guard chk (firstLine st en u16) u16 (if u16 then 4 else 2) f.length items [] [] 0 0 with
     | .ok (h, ts, ss) => .ok ⟨h, ts, ss, u16, style⟩
     | .err e => .err e
     | .panic p => .panic p
     | .diverge => .diverge
 
-/-- `DigestPowershell` (with fixes F8a, F8b) -/
-def DigestPS (f : Bytes) (style : Nat) : Res Digest := digestWith true lines16 f style
+/-- `DigestPowershell` (with fixes F8a, F8b, F-ps-eol) -/
+def DigestPS (f : Bytes) (style : Nat) : Res Digest := digestWith true true lines16 f style
 
-/-- `DigestPowershell` as it was before the fixes -/
-def DigestPSOrig (f : Bytes) (style : Nat) : Res Digest := digestWith false linesOrig16 f style
+/-- `DigestPowershell` after the F8 fixes and before fix F-ps-eol: the end-of-line in front of the marker is cut off
+    without being looked at -/
+def DigestPSEolOrig (f : Bytes) (style : Nat) : Res Digest := digestWith true false lines16 f style
+
+/-- `DigestPowershell` as it was before all fixes -/
+def DigestPSOrig (f : Bytes) (style : Nat) : Res Digest := digestWith false false linesOrig16 f style
 
 /-! ### `PsDigest.MakePatch` -/
 
